@@ -275,8 +275,8 @@ func c10r3(c *an.Ctx) {
 	c.Check(okB, fmt.Sprintf("drpcerr.Code | unwrap loop has a constant bound (%d)", bound), c.P.Pos(fn.Pos()), "", "the unwrap loop is unbounded (cyclic chains)")
 	// a found code is returned as is
 	okRet := false
-	for _, ret := range an.Returns(fn) {
-		if call, ok := ret.Results[0].(*ssa.Call); ok && call.Common().IsInvoke() && call.Common().Method.Name() == "Code" {
+	for _, rc := range an.ReturnCases(fn) {
+		if call, ok := rc.Vals[0].(*ssa.Call); ok && call.Common().IsInvoke() && call.Common().Method.Name() == "Code" {
 			okRet = true
 		}
 	}
